@@ -628,6 +628,11 @@ def rule_tb3(ctx, prog, rid, fns, control=False):
 
 # ------------------------------------------------------------------------------------------------
 
+NUL_READERS = {'strlen', 'strchr', 'strrchr', 'strstr', 'strpbrk', 'strspn', 'strcspn', 'strcmp', 'strcoll', 'strcpy', 'strcat', 'strdup',
+               'atoi', 'atol', 'atoll', 'atof', 'strtol', 'strtoul', 'strtoll', 'strtoull', 'strtod', 'fopen', 'open', 'stat', 'lstat', 'access',
+               'unlink', 'remove', 'mkdir', 'chdir', 'puts', 'fputs', 'getenv', 'setenv', 'system', 'popen', 'perror'}
+
+
 def run(ctx):
     prog = ctx.prog
     R = ctx.rule
@@ -707,7 +712,38 @@ def run(ctx):
             r = f.find_path(e, lambda x: x['k'] == 'call' and x.get('name') in vs.SCANNER_FUNCS and x is not e,
                             is_blocker=lambda x: x['k'] == 'call' and x.get('name') == 'Lexer::UnreadToken')
             ctx.check('C13.V1', r is None, name, 'helper-scans-twice', f.where(e), '%s reads one token and at most unreads it' % name)
-    ctx.floor('C13.V1', 8)
+    # a StringPiece is a slice of a larger buffer, without a terminator of its own: its str_ is never handed to a
+    # function that reads up to a NUL (what follows the slice is other text - or the end of the allocation)
+    def nul_reader_hits(f):
+        for e in f.events('call'):
+            nm = e.get('name') or ''
+            last = lastname(nm).split('<')[0]
+            args = list(e.get('args') or [])
+            reads_nul = (nm in NUL_READERS) or \
+                (nm.startswith('std::basic_string<char>::') and last in ('basic_string', 'operator=', 'operator+=', 'append', 'assign', 'compare', 'find', 'insert') and
+                 len([a for a in args if 'allocator' not in ((a.get('ty') if isinstance(a, dict) else '') or '')]) == 1)
+            if not reads_nul:
+                continue
+            for a in args:
+                sa = strip(a)
+                if not (isinstance(sa, dict) and (sa.get('tk') == 'ptr' or sa.get('k') in ('mem', 'var', 'bin', 'cast'))):
+                    continue
+                os_ = origins(f, a)
+                if any(any(x.get('k') == 'mem' and str(x.get('n', '')).endswith('StringPiece::str_') for x in walk(o)) for o in os_):
+                    yield e
+                    break
+    nv = 0
+    for f in prog.functions.values():
+        if f.file.startswith('third_party'):
+            continue
+        for e in nul_reader_hits(f):
+            nv += 1
+            ctx.violation('C13.V1', f.name, 'unterminated-slice:%s' % basename(e.get('name') or ''), f.where(e),
+                          'StringPiece::str_ (no terminator) is handed to %s, which reads up to a NUL: `%s`' % (basename(e.get('name') or ''), (e.get('src') or '')[:60]))
+    if len(list(nul_reader_hits(fx.fn('nvctl::UnterminatedSlice')))) != 1:
+        raise AnalysisBroken('V1 control (UnterminatedSlice) failed')
+    ctx.inst('C13.V1', 'fixtures/controls.cc', 'control: nvctl::UnterminatedSlice is recognised; %d such calls in ninja' % nv)
+    ctx.floor('C13.V1', 9)
 
     # ---- TB1 ---------------------------------------------------------------------------------------------
     R('C13.TB1', 'TB', 'file-derived values used as indices / sizes in the log loaders are bounded on '
